@@ -516,7 +516,14 @@ def run_children(configs, envs):
 
 # ------------------------------------------------------------------------------------------------------------
 def check_c1(ctx, impl, cases):
-    """cases: list of dict(label, seed, params, script|None). Returns impl results."""
+    """cases: list of dict(label, seed, params, script|None). Returns impl results (in slices: bounds memory)."""
+    results = []
+    for lo in range(0, len(cases), 400):
+        results += _check_c1(ctx, impl, cases[lo: lo + 400])
+    return results
+
+
+def _check_c1(ctx, impl, cases):
     batch, index, results = [], [], []
     for c in cases:
         r = impl.randomize(c.get("seed"), c.get("params"), c.get("script"), c.get("argv"))
@@ -626,6 +633,10 @@ def check_c1(ctx, impl, cases):
             ctx.disagree("c1:level-sets", "recorded iteration orders are not permutations of the model's level sets",
                          case, impl={"orders": r["orders"]}, model={"levels": run["levels"], "order": run["order"]},
                          spec_violated=False, site="RandomUDSServer.randomize")
+    for r in results:  # the recorded streams are not needed any more (memory: thousands of cases x up to 10^5 draws)
+        r["n_floats"] = len(r.get("floats", ()))
+        r.pop("ops", None)
+        r.pop("floats", None)
     return results
 
 
@@ -707,7 +718,7 @@ def check_c2(ctx, impl, c1_cases, c1_results, cli_cases=()):
                                         "optional_sessions": [2, 3, 0x41, 0x42]}})
     picked = [c for c, r in zip(c1_cases, c1_results)
               if c.get("script") is None and r["error"] is None and c["label"] == "seeded:random-arguments"
-              and len(r["floats"]) < 20000]
+              and r["n_floats"] < 20000]
     rng.shuffle(picked)
     for c in picked[: ctx.pick(14, 60)]:
         cfgs.append({"seed": c["seed"], "params": {**c["params"], "p_identifier": rng.choice([0.005, 0.5, 1.0]),
@@ -878,15 +889,19 @@ def check_pyset(ctx):
     ]
     n_nodes = 0
     for name, init, univ, depth, kinds in walks:
-        lines, expected, paths = PS.exhaustive_walk(init, univ, depth, kinds)
-        out = ctx.lean(["reset"] + lines)[1:]
-        n_nodes += len(lines)
-        ctx.ev(len(lines))
-        ctx.kind(*["pyset:exhaustive:" + name] * 1)
-        ctx.dist["pyset:exhaustive:" + name] += len(lines) - 1
-        for k, (o, e) in enumerate(zip(out, expected)):
-            if PS.strip_fill(o) != e:
-                pyset_report(ctx, PS.program_of(init, paths, k), "exhaustive:" + name)
+        found = False
+        for first in [(k, x) for k in kinds for x in univ]:  # one slice of the walk per first op (bounds memory)
+            lines, expected, paths = PS.exhaustive_walk(init, univ, depth, kinds, first)
+            out = ctx.lean(["reset"] + lines)[1:]
+            n_nodes += len(lines) - 1
+            ctx.ev(len(lines) - 1)
+            ctx.dist["pyset:exhaustive:" + name] += len(lines) - 1
+            for k, (o, e) in enumerate(zip(out, expected)):
+                if PS.strip_fill(o) != e:
+                    pyset_report(ctx, PS.program_of(init, paths, k), "exhaustive:" + name)
+                    found = True
+                    break
+            if found:
                 break
     # --- exhaustive: binary operations on every ordered pair of sets built from lists of length <= 3 ------------------
     import itertools
@@ -978,12 +993,19 @@ def replay_pyset(ctx, c):
     return bad
 
 
-def run(ctx):
+def search(ctx):
+    """failing-input search: the widened run without the PySet-vs-CPython part (a difference there is a broken tie, never a
+    failing input of the property)"""
+    run(ctx, with_pyset=False)
+
+
+def run(ctx, with_pyset=True):
     impl = Impl()
     ALL = all_services()
     ctx.rule = ("C1: one case = (seed, RandomnessParameters) or (scripted draw stream, arguments); counted as non-trivial when "
                 "the resulting model has >= 2 sessions or >= 2 services. C2: one evaluation = one (configuration, environment) transcript")
-    check_pyset(ctx)
+    if with_pyset:
+        check_pyset(ctx)
     check_default_optional_services(ctx, impl)
     cli_cases = cli_fixed() + [cli_random(ctx.rng) for _ in range(ctx.pick(6, 40))]
     cases = scripted_cases(ctx) + seeded_cases(ctx, ALL)  # small universes first: first disagreement per key is small
@@ -992,7 +1014,7 @@ def run(ctx):
     ok = [(c, r) for c, r in zip(cases, results) if r["error"] is None and c.get("script") is None and c.get("argv") is None]
     if ok:
         c, r = ok[0]
-        ctx.sample({"seed": c["seed"], "params": c["params"], "draws": len(r["floats"]), "orders": r["orders"], "model": r["dump"][:300]})
+        ctx.sample({"seed": c["seed"], "params": c["params"], "draws": r["n_floats"], "orders": r["orders"], "model": r["dump"][:300]})
     # same process, second instance: identical model (cheap sanity before the cross-process comparison)
     for c, r in ok[: ctx.pick(40, 300)]:
         r2 = impl.randomize(c["seed"], c["params"])
